@@ -1,2 +1,1043 @@
-(* IterEqProofs.v — being written *)
+(* IterEqProofs.v — iterators (C10), equality of list-shaped containers (C18),
+   FromIterator / Extend (C17).
+
+   A. [run_iter] (the window [lo, hi) of positions of util.rs Iter / Strings) refines a
+      double-ended queue over the explicit list of remaining (key, string) pairs; the deque
+      yields every entry at most once, accounts for every entry (yielded / remaining /
+      skipped), reports exact lengths, and is a contiguous segment of the content.
+   B. [eq_obj] on Rodeo / RodeoReader / RodeoResolver is equality of the content lists.
+   C. [r_extend] is "append the strings not seen so far, in order of first occurrence". *)
 From Lasso Require Import Base Arena ArenaProofs Rodeo RodeoInv RodeoProofs.
+From Coq Require Import Permutation Sorted.
+
+(* ====================================================================================== *)
+(* A. iterators                                                                            *)
+(* ====================================================================================== *)
+
+(* the (key index, string) pairs of a content list, in key order *)
+Definition enumerate (cs : list str) : list (N * str) :=
+  combine (map N.of_nat (seq 0 (length cs))) cs.
+
+(* positions lo .. hi-1 of a list *)
+Definition sublist {A} (lo hi : N) (l : list A) : list A :=
+  firstn (N.to_nat (hi - lo)) (skipn (N.to_nat lo) l).
+
+Definition it_of (p : N * str) : item := ItSome (fst p) (snd p).
+
+(* drop the last [n] entries, then take the last one of what is left *)
+Definition pop_back_n (n : nat) (rem : list (N * str)) : option ((N * str) * list (N * str)) :=
+  match skipn n (rev rem) with
+  | [] => None
+  | x :: r => Some (x, rev r)
+  end.
+
+(* one call on the specification iterator: the item it returns and what remains *)
+Definition deque_step (rem : list (N * str)) (o : iop) : item * list (N * str) :=
+  match o with
+  | INext => match rem with
+             | [] => (ItNone, [])
+             | x :: r => (it_of x, r)
+             end
+  | INextBack => match pop_back_n 0 rem with
+                 | Some (x, r) => (it_of x, r)
+                 | None => (ItNone, [])
+                 end
+  | INthBack n => match pop_back_n (N.to_nat n) rem with
+                  | Some (x, r) => (it_of x, r)
+                  | None => (ItNone, [])          (* too few left: None, and the iterator is EMPTY *)
+                  end
+  | ILen => (ItLen (N.of_nat (length rem)), rem)
+  end.
+
+Fixpoint deque_iter (rem : list (N * str)) (plan : list iop) : list item :=
+  match plan with
+  | [] => []
+  | o :: p => fst (deque_step rem o) :: deque_iter (snd (deque_step rem o)) p
+  end.
+
+(* what remains after a plan *)
+Fixpoint deque_rem (rem : list (N * str)) (plan : list iop) : list (N * str) :=
+  match plan with
+  | [] => rem
+  | o :: p => deque_rem (snd (deque_step rem o)) p
+  end.
+
+(* ---------- pop_back_n is what its comment says ---------- *)
+
+Lemma pop_back_n_some n rem x r :
+  pop_back_n n rem = Some (x, r) -> exists tl, rem = r ++ x :: tl /\ length tl = n.
+Proof.
+  unfold pop_back_n. intros H.
+  destruct (skipn n (rev rem)) as [|y r0] eqn:E; [discriminate|].
+  inversion H; subst y r. clear H.
+  exists (rev (firstn n (rev rem))). split.
+  - assert (Hr : rev rem = firstn n (rev rem) ++ x :: r0).
+    { rewrite <- E. symmetry. apply firstn_skipn. }
+    apply (f_equal (@rev _)) in Hr. rewrite rev_involutive in Hr.
+    rewrite rev_app_distr in Hr. simpl in Hr. rewrite <- app_assoc in Hr. exact Hr.
+  - assert (Hl : length (skipn n (rev rem)) = (length rem - n)%nat).
+    { rewrite skipn_length, rev_length. reflexivity. }
+    rewrite E in Hl. simpl in Hl.
+    rewrite rev_length, firstn_length, rev_length. lia.
+Qed.
+
+Lemma pop_back_n_none n rem : pop_back_n n rem = None -> (length rem <= n)%nat.
+Proof.
+  unfold pop_back_n. intros H.
+  destruct (skipn n (rev rem)) as [|y r0] eqn:E; [|discriminate].
+  assert (Hl : length (skipn n (rev rem)) = (length rem - n)%nat).
+  { rewrite skipn_length, rev_length. reflexivity. }
+  rewrite E in Hl. simpl in Hl. lia.
+Qed.
+
+Lemma pop_back_n_app r x tl : pop_back_n (length tl) (r ++ x :: tl) = Some (x, r).
+Proof.
+  unfold pop_back_n. rewrite rev_app_distr. simpl. rewrite <- app_assoc. simpl.
+  rewrite skipn_app, rev_length, Nat.sub_diag.
+  rewrite skipn_all2 by (rewrite rev_length; lia). simpl.
+  rewrite rev_involutive. reflexivity.
+Qed.
+
+Lemma pop_back_n_short n rem : (length rem <= n)%nat -> pop_back_n n rem = None.
+Proof.
+  intros H. unfold pop_back_n. rewrite skipn_all2 by (rewrite rev_length; lia). reflexivity.
+Qed.
+
+(* the specification iterator, operation by operation, in "obviously right" form *)
+Lemma deque_step_next_nil : deque_step [] INext = (ItNone, []).
+Proof. reflexivity. Qed.
+
+Lemma deque_step_next x r : deque_step (x :: r) INext = (it_of x, r).
+Proof. reflexivity. Qed.
+
+Lemma deque_step_next_back r x : deque_step (r ++ [x]) INextBack = (it_of x, r).
+Proof.
+  cbn [deque_step]. pose proof (pop_back_n_app r x []) as H. cbn [length] in H. now rewrite H.
+Qed.
+
+Lemma deque_step_next_back_nil : deque_step [] INextBack = (ItNone, []).
+Proof. reflexivity. Qed.
+
+Lemma deque_step_nth_back r x tl n :
+  N.of_nat (length tl) = n -> deque_step (r ++ x :: tl) (INthBack n) = (it_of x, r).
+Proof.
+  intros <-. cbn [deque_step]. rewrite Nat2N.id. now rewrite pop_back_n_app.
+Qed.
+
+Lemma deque_step_nth_back_short rem n :
+  N.of_nat (length rem) <= n -> deque_step rem (INthBack n) = (ItNone, []).
+Proof.
+  intros H. cbn [deque_step]. rewrite pop_back_n_short by lia. reflexivity.
+Qed.
+
+Lemma deque_step_len rem : deque_step rem ILen = (ItLen (N.of_nat (length rem)), rem).
+Proof. reflexivity. Qed.
+
+(* next_back is nth_back(0) *)
+Lemma deque_step_next_back_nth rem : deque_step rem INextBack = deque_step rem (INthBack 0).
+Proof. reflexivity. Qed.
+
+(* ---------- enumerate ---------- *)
+
+Lemma enumerate_length cs : length (enumerate cs) = length cs.
+Proof.
+  unfold enumerate. rewrite combine_length, map_length, seq_length. apply Nat.min_id.
+Qed.
+
+Lemma enum_nth_gen (cs : list str) b i j (s : str) :
+  nth_error (combine (map N.of_nat (seq b (length cs))) cs) i = Some (j, s) ->
+  j = N.of_nat (b + i) /\ nth_error cs i = Some s.
+Proof.
+  revert b i; induction cs as [|c cs IH]; intros b i H; simpl in H.
+  - destruct i; discriminate.
+  - destruct i as [|i]; simpl in H.
+    + inversion H; subst. split; [f_equal; lia|reflexivity].
+    + apply IH in H. destruct H as (H1 & H2). split; [rewrite H1; f_equal; lia|exact H2].
+Qed.
+
+Lemma enumerate_nth (cs : list str) i j (s : str) :
+  nth_error (enumerate cs) i = Some (j, s) -> j = N.of_nat i /\ nth_error cs i = Some s.
+Proof. unfold enumerate. intros H. apply enum_nth_gen in H. exact H. Qed.
+
+Lemma enumerate_keys cs : map fst (enumerate cs) = map N.of_nat (seq 0 (length cs)).
+Proof.
+  unfold enumerate. generalize 0%nat as b.
+  induction cs as [|c cs IH]; intros b; simpl; [reflexivity|]. now rewrite IH.
+Qed.
+
+Lemma enumerate_strs cs : map snd (enumerate cs) = cs.
+Proof.
+  unfold enumerate. generalize 0%nat as b.
+  induction cs as [|c cs IH]; intros b; simpl; [reflexivity|]. now rewrite IH.
+Qed.
+
+Lemma enumerate_keys_nodup cs : NoDup (map fst (enumerate cs)).
+Proof.
+  rewrite enumerate_keys. apply FinFun.Injective_map_NoDup.
+  - intros x y H. lia.
+  - apply seq_NoDup.
+Qed.
+
+Lemma sublist_full {A} (l : list A) : sublist 0 (N.of_nat (length l)) l = l.
+Proof.
+  unfold sublist. replace (N.to_nat 0) with 0%nat by lia. simpl.
+  replace (N.to_nat (N.of_nat (length l) - 0)) with (length l) by lia. apply firstn_all.
+Qed.
+
+(* ---------- the refinement ---------- *)
+
+Section Iter.
+  Variable keycap : N.
+
+  Notation run_iter := (run_iter keycap).
+  Notation iter_item := (iter_item keycap).
+
+  Lemma iter_item_ok keyed strs a cs i s :
+    contents strs a = Some cs ->
+    (keyed = true -> N.of_nat (length cs) <= keycap) ->
+    nth_error cs i = Some s ->
+    iter_item keyed strs a (N.of_nat i) = ItSome (N.of_nat i) s.
+  Proof.
+    intros Hc Hk Hn. unfold Rodeo.iter_item.
+    rewrite (key_str_contents _ _ _ _ Hc), Nat2N.id, Hn.
+    assert (Hi : (i < length cs)%nat) by (apply nth_error_Some; congruence).
+    destruct keyed; simpl; [|reflexivity].
+    assert (Hlt : N.of_nat i <? keycap = true) by (apply N.ltb_lt; specialize (Hk eq_refl); lia).
+    rewrite Hlt. reflexivity.
+  Qed.
+
+  (* the window [lo, hi) and the explicit list of remaining entries move in lockstep *)
+  Lemma run_iter_deque_gen keyed strs a cs :
+    contents strs a = Some cs ->
+    (keyed = true -> N.of_nat (length cs) <= keycap) ->
+    forall plan pre rem post lo hi,
+      enumerate cs = pre ++ rem ++ post ->
+      lo = N.of_nat (length pre) ->
+      hi = N.of_nat (length pre + length rem) ->
+      run_iter keyed strs a lo hi plan = deque_iter rem plan.
+  Proof.
+    intros Hc Hk.
+    assert (Hitem : forall pre' x post', enumerate cs = pre' ++ x :: post' ->
+              iter_item keyed strs a (N.of_nat (length pre')) = it_of x).
+    { intros pre' [j s] post' H.
+      assert (Hn : nth_error (enumerate cs) (length pre') = Some (j, s)).
+      { rewrite H. rewrite nth_error_app2 by lia. rewrite Nat.sub_diag. reflexivity. }
+      apply enumerate_nth in Hn. destruct Hn as (Hj & Hs). subst j.
+      unfold it_of; simpl. eapply iter_item_ok; eauto. }
+    induction plan as [|o p IH]; intros pre rem post lo hi He Hlo Hhi; [reflexivity|].
+    destruct o as [| |n|]; cbn [Rodeo.run_iter deque_iter deque_step].
+    - (* next *)
+      destruct rem as [|x r]; cbn [fst snd].
+      + simpl in Hhi.
+        assert (Hw : lo <? hi = false) by (apply N.ltb_ge; lia). rewrite Hw.
+        f_equal. apply (IH pre [] post); auto.
+      + simpl in Hhi.
+        assert (Hw : lo <? hi = true) by (apply N.ltb_lt; lia). rewrite Hw.
+        f_equal.
+        * subst lo. apply (Hitem pre x (r ++ post)). exact He.
+        * apply (IH (pre ++ [x]) r post).
+          -- rewrite <- app_assoc. exact He.
+          -- rewrite app_length. simpl. lia.
+          -- rewrite app_length. simpl. lia.
+    - (* next_back *)
+      destruct (pop_back_n 0 rem) as [[x r]|] eqn:E; cbn [fst snd].
+      + apply pop_back_n_some in E. destruct E as (tl & Hrem & Htl).
+        destruct tl; [|discriminate]. subst rem.
+        rewrite app_length in Hhi. simpl in Hhi.
+        assert (Hw : lo <? hi = true) by (apply N.ltb_lt; lia). rewrite Hw.
+        f_equal.
+        * replace (hi - 1) with (N.of_nat (length (pre ++ r))) by (rewrite app_length; lia).
+          apply (Hitem (pre ++ r) x post). rewrite He, <- !app_assoc. reflexivity.
+        * apply (IH pre r (x :: post)); [|assumption|lia].
+          rewrite He, <- app_assoc. reflexivity.
+      + apply pop_back_n_none in E.
+        assert (Hw : lo <? hi = false) by (apply N.ltb_ge; lia). rewrite Hw.
+        f_equal. destruct rem; [|simpl in E; lia]. apply (IH pre [] post); auto.
+    - (* nth_back *)
+      destruct (pop_back_n (N.to_nat n) rem) as [[x r]|] eqn:E; cbn [fst snd].
+      + apply pop_back_n_some in E. destruct E as (tl & Hrem & Htl). subst rem.
+        rewrite app_length in Hhi. simpl in Hhi.
+        assert (Hw : n <? hi - lo = true) by (apply N.ltb_lt; lia). rewrite Hw.
+        f_equal.
+        * replace (hi - n - 1) with (N.of_nat (length (pre ++ r))) by (rewrite app_length; lia).
+          apply (Hitem (pre ++ r) x (tl ++ post)). rewrite He, <- !app_assoc. reflexivity.
+        * apply (IH pre r (x :: tl ++ post)); [|assumption|lia].
+          rewrite He, <- app_assoc. reflexivity.
+      + apply pop_back_n_none in E.
+        assert (Hw : n <? hi - lo = false) by (apply N.ltb_ge; lia). rewrite Hw.
+        f_equal. apply (IH pre [] (rem ++ post)); [exact He|assumption|simpl; lia].
+    - (* len *)
+      cbn [fst snd]. f_equal.
+      + f_equal. lia.
+      + apply (IH pre rem post); auto.
+  Qed.
+
+  (* C10: the iterator over positions IS the deque over the abstract content *)
+  Theorem run_iter_refines_deque keyed strs a cs lo hi plan :
+    contents strs a = Some cs ->
+    lo <= hi -> hi <= N.of_nat (length cs) ->
+    (keyed = true -> N.of_nat (length cs) <= keycap) ->
+    run_iter keyed strs a lo hi plan = deque_iter (sublist lo hi (enumerate cs)) plan.
+  Proof.
+    intros Hc Hlh Hhc Hk.
+    apply (run_iter_deque_gen keyed strs a cs Hc Hk plan
+             (firstn (N.to_nat lo) (enumerate cs))
+             (sublist lo hi (enumerate cs))
+             (skipn (N.to_nat (hi - lo)) (skipn (N.to_nat lo) (enumerate cs)))).
+    - unfold sublist. rewrite firstn_skipn. rewrite firstn_skipn. reflexivity.
+    - rewrite firstn_length, enumerate_length. lia.
+    - unfold sublist. rewrite !firstn_length, skipn_length, enumerate_length. lia.
+  Qed.
+
+  (* what [step] runs for IterOp / StringsOp: the whole table *)
+  Corollary run_iter_whole keyed strs a cs plan :
+    contents strs a = Some cs ->
+    (keyed = true -> N.of_nat (length cs) <= keycap) ->
+    run_iter keyed strs a 0 (N.of_nat (length strs)) plan = deque_iter (enumerate cs) plan.
+  Proof.
+    intros Hc Hk. pose proof (contents_length _ _ _ Hc) as Hl.
+    rewrite (run_iter_refines_deque keyed strs a cs 0 (N.of_nat (length strs)) plan Hc); auto; try lia.
+    rewrite <- Hl, <- (enumerate_length cs), sublist_full. reflexivity.
+  Qed.
+End Iter.
+
+(* what [step] answers for an iterator plan on a Rodeo / RodeoReader / RodeoResolver *)
+Lemma obj_pairs_enumerate x strs a cs :
+  obj_strs x = Some (strs, a) -> contents strs a = Some cs -> obj_pairs x = Some (enumerate cs).
+Proof.
+  intros Hx Hc. destruct x; simpl in Hx; try discriminate; inversion Hx; subst;
+    cbn [obj_pairs obj_strs]; rewrite Hc; reflexivity.
+Qed.
+
+Theorem step_iter_list hash cand growf keycap w i plan strs a cs :
+  obj_strs (get_obj w i) = Some (strs, a) -> contents strs a = Some cs ->
+  N.of_nat (length cs) <= keycap ->
+  step hash cand growf keycap w (IterOp i plan) = (w, OItems (deque_iter (enumerate cs) plan)).
+Proof.
+  intros Hx Hc Hk. cbn [step].
+  destruct (get_obj w i); simpl in Hx; try discriminate; inversion Hx; subst;
+    cbn [obj_strs]; rewrite (run_iter_whole keycap true _ _ cs plan Hc); auto.
+Qed.
+
+Theorem step_strings_list hash cand growf keycap w i plan strs a cs :
+  obj_strs (get_obj w i) = Some (strs, a) -> contents strs a = Some cs ->
+  step hash cand growf keycap w (StringsOp i plan) = (w, OItems (deque_iter (enumerate cs) plan)).
+Proof.
+  intros Hx Hc. cbn [step].
+  destruct (get_obj w i); simpl in Hx; try discriminate; inversion Hx; subst;
+    cbn [obj_strs]; rewrite (run_iter_whole keycap false _ _ cs plan Hc); auto; discriminate.
+Qed.
+
+(* ---------- consequences: the deque semantics is the right one ---------- *)
+
+Lemma deque_iter_length rem plan : length (deque_iter rem plan) = length plan.
+Proof. revert rem; induction plan as [|o p IH]; intros rem; simpl; auto. Qed.
+
+Lemma deque_iter_app rem p1 p2 :
+  deque_iter rem (p1 ++ p2) = deque_iter rem p1 ++ deque_iter (deque_rem rem p1) p2.
+Proof.
+  revert rem; induction p1 as [|o p IH]; intros rem; simpl; [reflexivity|]. now rewrite IH.
+Qed.
+
+Lemma deque_rem_app rem p1 p2 : deque_rem rem (p1 ++ p2) = deque_rem (deque_rem rem p1) p2.
+Proof.
+  revert rem; induction p1 as [|o p IH]; intros rem; simpl; [reflexivity|]. now rewrite IH.
+Qed.
+
+(* no panic, ever *)
+Lemma deque_step_item rem o :
+  (exists x, In x rem /\ fst (deque_step rem o) = it_of x) \/
+  fst (deque_step rem o) = ItNone \/
+  fst (deque_step rem o) = ItLen (N.of_nat (length rem)).
+Proof.
+  destruct o as [| |n|]; cbn [deque_step].
+  - destruct rem as [|x r]; simpl; [auto|]. left. exists x. auto.
+  - destruct (pop_back_n 0 rem) as [[x r]|] eqn:E; simpl; [|auto].
+    apply pop_back_n_some in E. destruct E as (tl & -> & _).
+    left. exists x. split; auto. apply in_app_iff. right. now left.
+  - destruct (pop_back_n (N.to_nat n) rem) as [[x r]|] eqn:E; simpl; [|auto].
+    apply pop_back_n_some in E. destruct E as (tl & -> & _).
+    left. exists x. split; auto. apply in_app_iff. right. now left.
+  - simpl. auto.
+Qed.
+
+Lemma deque_iter_no_panic rem plan : ~ In ItPanic (deque_iter rem plan).
+Proof.
+  revert rem; induction plan as [|o p IH]; intros rem; simpl; [tauto|].
+  intros [H|H]; [|eapply IH; eauto].
+  destruct (deque_step_item rem o) as [(x & _ & Hx)|[Hx|Hx]]; rewrite Hx in H; discriminate.
+Qed.
+
+Corollary run_iter_no_panic keycap keyed strs a cs lo hi plan :
+  contents strs a = Some cs ->
+  lo <= hi -> hi <= N.of_nat (length cs) ->
+  (keyed = true -> N.of_nat (length cs) <= keycap) ->
+  ~ In ItPanic (run_iter keycap keyed strs a lo hi plan).
+Proof.
+  intros Hc H1 H2 Hk. rewrite (run_iter_refines_deque keycap keyed strs a cs lo hi plan Hc H1 H2 Hk).
+  apply deque_iter_no_panic.
+Qed.
+
+(* forward iteration yields everything, in order *)
+Theorem deque_iter_all_next rem :
+  deque_iter rem (repeat INext (length rem)) = map it_of rem.
+Proof. induction rem as [|x r IH]; simpl; [reflexivity|]. now rewrite IH. Qed.
+
+(* ... and is exhausted afterwards *)
+Lemma deque_rem_all_next rem : deque_rem rem (repeat INext (length rem)) = [].
+Proof. induction rem as [|x r IH]; simpl; auto. Qed.
+
+(* backward iteration yields everything, in reverse order *)
+Theorem deque_iter_all_next_back rem :
+  deque_iter rem (repeat INextBack (length rem)) = map it_of (rev rem).
+Proof.
+  rewrite <- (rev_involutive rem) at 1. rewrite <- (rev_length rem).
+  induction (rev rem) as [|x l IH]; [reflexivity|].
+  cbn [length repeat rev deque_iter]. rewrite deque_step_next_back. cbn [fst snd map].
+  now rewrite IH.
+Qed.
+
+(* the whole table, through the model's iterator *)
+Corollary run_iter_all_next keycap keyed strs a cs :
+  contents strs a = Some cs ->
+  (keyed = true -> N.of_nat (length cs) <= keycap) ->
+  run_iter keycap keyed strs a 0 (N.of_nat (length strs)) (repeat INext (length strs)) =
+  map it_of (enumerate cs).
+Proof.
+  intros Hc Hk. rewrite (run_iter_whole keycap keyed strs a cs _ Hc Hk).
+  rewrite <- (contents_length _ _ _ Hc), <- (enumerate_length cs). apply deque_iter_all_next.
+Qed.
+
+Corollary run_iter_all_next_back keycap keyed strs a cs :
+  contents strs a = Some cs ->
+  (keyed = true -> N.of_nat (length cs) <= keycap) ->
+  run_iter keycap keyed strs a 0 (N.of_nat (length strs)) (repeat INextBack (length strs)) =
+  map it_of (rev (enumerate cs)).
+Proof.
+  intros Hc Hk. rewrite (run_iter_whole keycap keyed strs a cs _ Hc Hk).
+  rewrite <- (contents_length _ _ _ Hc), <- (enumerate_length cs). apply deque_iter_all_next_back.
+Qed.
+
+(* ---- accounting: for ANY plan every entry is yielded, still remaining, or skipped — once ---- *)
+
+Definition yield1 (it : item) : list (N * str) :=
+  match it with ItSome i s => [(i, s)] | _ => [] end.
+
+(* the (key, string) pairs a run has yielded, in order *)
+Definition yielded (its : list item) : list (N * str) := flat_map yield1 its.
+
+Lemma yielded_cons it l : yielded (it :: l) = yield1 it ++ yielded l.
+Proof. reflexivity. Qed.
+
+Lemma yield1_it_of x : yield1 (it_of x) = [x].
+Proof. now destruct x. Qed.
+
+Lemma deque_step_perm rem o :
+  exists sk, Permutation rem (yield1 (fst (deque_step rem o)) ++ snd (deque_step rem o) ++ sk).
+Proof.
+  destruct o as [| |n|]; cbn [deque_step].
+  - destruct rem as [|x r]; cbn [fst snd].
+    + exists []. simpl. constructor.
+    + exists []. rewrite yield1_it_of, app_nil_r. simpl. reflexivity.
+  - destruct (pop_back_n 0 rem) as [[x r]|] eqn:E; cbn [fst snd].
+    + apply pop_back_n_some in E. destruct E as (tl & -> & _).
+      exists tl. rewrite yield1_it_of. simpl. symmetry. apply Permutation_middle.
+    + exists rem. simpl. reflexivity.
+  - destruct (pop_back_n (N.to_nat n) rem) as [[x r]|] eqn:E; cbn [fst snd].
+    + apply pop_back_n_some in E. destruct E as (tl & -> & _).
+      exists tl. rewrite yield1_it_of. simpl. symmetry. apply Permutation_middle.
+    + exists rem. simpl. reflexivity.
+  - cbn [fst snd]. exists []. simpl. rewrite app_nil_r. reflexivity.
+Qed.
+
+Theorem deque_accounting rem plan :
+  exists skipped,
+    Permutation rem (yielded (deque_iter rem plan) ++ deque_rem rem plan ++ skipped).
+Proof.
+  revert rem; induction plan as [|o p IH]; intros rem.
+  - exists []. simpl. rewrite app_nil_r. reflexivity.
+  - destruct (deque_step_perm rem o) as (sk1 & H1).
+    destruct (IH (snd (deque_step rem o))) as (sk2 & H2).
+    exists (sk2 ++ sk1). cbn [deque_iter deque_rem]. rewrite yielded_cons.
+    eapply Permutation_trans; [exact H1|].
+    rewrite <- app_assoc. apply Permutation_app_head.
+    match goal with |- Permutation _ (?Y ++ ?R ++ ?S2 ++ ?S1) =>
+      replace (Y ++ R ++ S2 ++ S1) with ((Y ++ R ++ S2) ++ S1) by (rewrite <- !app_assoc; reflexivity)
+    end.
+    apply Permutation_app_tail. exact H2.
+Qed.
+
+Lemma NoDup_app_l {A} (l l' : list A) : NoDup (l ++ l') -> NoDup l.
+Proof.
+  induction l as [|x l IH]; simpl; intros H; [constructor|].
+  inversion H; subst. constructor; auto. intros Hin. apply H2. apply in_app_iff. now left.
+Qed.
+
+(* everything yielded is an entry of the iterator *)
+Theorem yielded_incl rem plan : incl (yielded (deque_iter rem plan)) rem.
+Proof.
+  destruct (deque_accounting rem plan) as (sk & H). intros x Hx.
+  eapply Permutation_in; [symmetry; exact H|]. apply in_app_iff. now left.
+Qed.
+
+(* no position is yielded twice, and nothing yielded is still in the iterator *)
+Theorem yielded_rem_nodup_keys rem plan :
+  NoDup (map fst rem) ->
+  NoDup (map fst (yielded (deque_iter rem plan) ++ deque_rem rem plan)).
+Proof.
+  intros Hnd. destruct (deque_accounting rem plan) as (sk & H).
+  apply (Permutation_map fst) in H. apply (Permutation_NoDup H) in Hnd.
+  rewrite app_assoc, map_app in Hnd. now apply NoDup_app_l in Hnd.
+Qed.
+
+Corollary yielded_nodup_keys rem plan :
+  NoDup (map fst rem) -> NoDup (map fst (yielded (deque_iter rem plan))).
+Proof.
+  intros Hnd. apply (yielded_rem_nodup_keys rem plan) in Hnd.
+  rewrite map_app in Hnd. now apply NoDup_app_l in Hnd.
+Qed.
+
+Corollary yielded_nodup rem plan :
+  NoDup (map fst rem) -> NoDup (yielded (deque_iter rem plan)).
+Proof. intros Hnd. eapply NoDup_map_inv. apply yielded_nodup_keys. exact Hnd. Qed.
+
+(* lengths: yielded + remaining + skipped = all *)
+Theorem deque_lengths rem plan :
+  (length (yielded (deque_iter rem plan)) + length (deque_rem rem plan) <= length rem)%nat.
+Proof.
+  destruct (deque_accounting rem plan) as (sk & H). apply Permutation_length in H.
+  rewrite !app_length in H. lia.
+Qed.
+
+Corollary deque_rem_length rem plan : (length (deque_rem rem plan) <= length rem)%nat.
+Proof. pose proof (deque_lengths rem plan). lia. Qed.
+
+(* ExactSizeIterator: a len() call anywhere in a plan reports exactly what is left there *)
+Theorem deque_len_exact rem p1 p2 :
+  deque_iter rem (p1 ++ ILen :: p2) =
+  deque_iter rem p1 ++ ItLen (N.of_nat (length (deque_rem rem p1))) :: deque_iter (deque_rem rem p1) p2.
+Proof. rewrite deque_iter_app. reflexivity. Qed.
+
+Corollary deque_len_exact_nth rem p1 p2 :
+  nth_error (deque_iter rem (p1 ++ ILen :: p2)) (length p1) =
+  Some (ItLen (N.of_nat (length (deque_rem rem p1)))).
+Proof.
+  rewrite deque_len_exact. rewrite nth_error_app2 by (rewrite deque_iter_length; lia).
+  rewrite deque_iter_length, Nat.sub_diag. reflexivity.
+Qed.
+
+(* with nothing skipped (no nth_back), len = all - yielded *)
+Lemma deque_accounting_noskip rem plan :
+  Forall (fun o => match o with INthBack _ => False | _ => True end) plan ->
+  Permutation rem (yielded (deque_iter rem plan) ++ deque_rem rem plan).
+Proof.
+  revert rem; induction plan as [|o p IH]; intros rem Hf.
+  - simpl. reflexivity.
+  - inversion Hf as [|o' p' Ho Hp]; subst. cbn [deque_iter deque_rem]. rewrite yielded_cons.
+    specialize (IH (snd (deque_step rem o)) Hp).
+    destruct o as [| |n|]; [| | contradiction |]; cbn [deque_step] in *.
+    + destruct rem as [|x r]; cbn [fst snd] in *.
+      * simpl. exact IH.
+      * rewrite yield1_it_of. simpl. now constructor.
+    + destruct (pop_back_n 0 rem) as [[x r]|] eqn:E; cbn [fst snd] in *.
+      * apply pop_back_n_some in E. destruct E as (tl & -> & Htl).
+        destruct tl; [|discriminate]. rewrite yield1_it_of. simpl.
+        eapply Permutation_trans; [symmetry; apply Permutation_middle|].
+        rewrite app_nil_r. now constructor.
+      * apply pop_back_n_none in E. destruct rem; [|simpl in E; lia]. simpl. exact IH.
+    + cbn [fst snd] in *. simpl. exact IH.
+Qed.
+
+(* ---- order: what is left is always a contiguous segment; fronts ascend, backs descend ---- *)
+
+(* entries taken by next(), in order / entries removed at the back (yielded or skipped), in order *)
+Fixpoint deque_fronts (rem : list (N * str)) (plan : list iop) : list (N * str) :=
+  match plan with
+  | [] => []
+  | o :: p =>
+      match o, rem with
+      | INext, x :: _ => [x]
+      | _, _ => []
+      end ++ deque_fronts (snd (deque_step rem o)) p
+  end.
+
+(* the items yielded by next() / by next_back() and nth_back() *)
+Fixpoint front_items (rem : list (N * str)) (plan : list iop) : list item :=
+  match plan with
+  | [] => []
+  | o :: p =>
+      match o, fst (deque_step rem o) with
+      | INext, ItSome i s => [ItSome i s]
+      | _, _ => []
+      end ++ front_items (snd (deque_step rem o)) p
+  end.
+
+Fixpoint back_items (rem : list (N * str)) (plan : list iop) : list item :=
+  match plan with
+  | [] => []
+  | o :: p =>
+      match o, fst (deque_step rem o) with
+      | INextBack, ItSome i s | INthBack _, ItSome i s => [ItSome i s]
+      | _, _ => []
+      end ++ back_items (snd (deque_step rem o)) p
+  end.
+
+Lemma front_items_fronts rem plan : front_items rem plan = map it_of (deque_fronts rem plan).
+Proof.
+  revert rem; induction plan as [|o p IH]; intros rem; [reflexivity|].
+  cbn [front_items deque_fronts]. rewrite map_app, IH. f_equal.
+  destruct o; try reflexivity.
+  - destruct rem as [|[i s] r]; reflexivity.
+Qed.
+
+(* subsequence *)
+Inductive subseq {A} : list A -> list A -> Prop :=
+| subseq_nil : subseq [] []
+| subseq_skip x l1 l2 : subseq l1 l2 -> subseq l1 (x :: l2)
+| subseq_take x l1 l2 : subseq l1 l2 -> subseq (x :: l1) (x :: l2).
+
+Lemma subseq_refl {A} (l : list A) : subseq l l.
+Proof. induction l; [apply subseq_nil|apply subseq_take; auto]. Qed.
+
+Lemma subseq_nil_l {A} (l : list A) : subseq [] l.
+Proof. induction l; constructor; auto. Qed.
+
+Lemma subseq_app {A} (a b c d : list A) : subseq a b -> subseq c d -> subseq (a ++ c) (b ++ d).
+Proof.
+  intros H; induction H; simpl; intros Hc; auto.
+  - apply subseq_skip; auto.
+  - apply subseq_take; auto.
+Qed.
+
+Lemma subseq_in {A} (l1 l2 : list A) x : subseq l1 l2 -> In x l1 -> In x l2.
+Proof.
+  intros H; induction H; simpl; auto.
+  intros [->|Hin]; auto.
+Qed.
+
+Lemma subseq_sorted {A} (R : A -> A -> Prop) l1 l2 :
+  subseq l1 l2 -> StronglySorted R l2 -> StronglySorted R l1.
+Proof.
+  intros H; induction H; intros Hs; auto.
+  - inversion Hs; subst. auto.
+  - inversion Hs; subst. constructor; auto.
+    rewrite Forall_forall in *. intros y Hy. apply H3. eapply subseq_in; eauto.
+Qed.
+
+Lemma sorted_app_l {A} (R : A -> A -> Prop) l1 l2 :
+  StronglySorted R (l1 ++ l2) -> StronglySorted R l1.
+Proof.
+  induction l1 as [|x l1 IH]; simpl; intros H; [constructor|].
+  inversion H; subst. constructor; auto.
+  rewrite Forall_forall in *. intros y Hy. apply H3. apply in_app_iff. now left.
+Qed.
+
+Lemma sorted_app_r {A} (R : A -> A -> Prop) l1 l2 :
+  StronglySorted R (l1 ++ l2) -> StronglySorted R l2.
+Proof.
+  induction l1 as [|x l1 IH]; simpl; intros H; [exact H|].
+  inversion H; subst. auto.
+Qed.
+
+Lemma sorted_snoc {A} (R : A -> A -> Prop) m x :
+  StronglySorted R m -> Forall (fun y => R y x) m -> StronglySorted R (m ++ [x]).
+Proof.
+  induction m as [|z m IHm]; simpl; intros Hs Hf.
+  - constructor; constructor.
+  - inversion Hs; subst. inversion Hf; subst. constructor.
+    + apply IHm; auto.
+    + apply Forall_app. split; auto.
+Qed.
+
+Lemma sorted_rev {A} (R : A -> A -> Prop) l :
+  StronglySorted R l -> StronglySorted (fun x y => R y x) (rev l).
+Proof.
+  induction l as [|x l IH]; simpl; intros H; [constructor|].
+  inversion H; subst. apply sorted_snoc; auto.
+  rewrite Forall_forall in *. intros y Hy. apply H3. apply in_rev. exact Hy.
+Qed.
+
+(* structural theorem: after any plan,
+     rem = (what next() took, in order) ++ (what is left) ++ (what was removed at the back)
+   and the back-yielded entries are a subsequence of the removed part read backwards *)
+Theorem deque_segment rem plan :
+  exists backs,
+    rem = deque_fronts rem plan ++ deque_rem rem plan ++ backs /\
+    exists bl, back_items rem plan = map it_of bl /\ subseq bl (rev backs).
+Proof.
+  revert rem; induction plan as [|o p IH]; intros rem.
+  - exists []. split; [simpl; now rewrite app_nil_r|]. exists []. split; [reflexivity|constructor].
+  - destruct (IH (snd (deque_step rem o))) as (b' & Hseg & bl' & Hbi & Hsub).
+    cbn [deque_fronts deque_rem back_items]. rewrite Hbi.
+    destruct o as [| |n|]; cbn [deque_step] in *.
+    + destruct rem as [|x r]; cbn [fst snd] in *.
+      * exists b'. split; [exact Hseg|]. exists bl'. split; [reflexivity|exact Hsub].
+      * exists b'. split; [simpl; f_equal; exact Hseg|]. exists bl'. split; [|exact Hsub].
+        destruct x; reflexivity.
+    + destruct (pop_back_n 0 rem) as [[x r]|] eqn:E; cbn [fst snd] in *.
+      * apply pop_back_n_some in E. destruct E as (tl & -> & _).
+        exists (b' ++ x :: tl). split.
+        { rewrite Hseg at 1. rewrite <- !app_assoc. reflexivity. }
+        exists (x :: bl'). split; [destruct x; reflexivity|].
+        rewrite rev_app_distr. simpl. rewrite <- app_assoc. simpl.
+        change (x :: bl') with ([] ++ x :: bl').
+        apply subseq_app; [apply subseq_nil_l|]. apply subseq_take. exact Hsub.
+      * exists (b' ++ rem). split.
+        { rewrite app_assoc, app_assoc. rewrite <- (app_assoc (deque_fronts [] p)). rewrite <- Hseg. reflexivity. }
+        exists bl'. split; [reflexivity|].
+        rewrite rev_app_distr. rewrite <- (app_nil_l bl').
+        apply subseq_app; [apply subseq_nil_l|exact Hsub].
+    + destruct (pop_back_n (N.to_nat n) rem) as [[x r]|] eqn:E; cbn [fst snd] in *.
+      * apply pop_back_n_some in E. destruct E as (tl & -> & _).
+        exists (b' ++ x :: tl). split.
+        { rewrite Hseg at 1. rewrite <- !app_assoc. reflexivity. }
+        exists (x :: bl'). split; [destruct x; reflexivity|].
+        rewrite rev_app_distr. simpl. rewrite <- app_assoc. simpl.
+        change (x :: bl') with ([] ++ x :: bl').
+        apply subseq_app; [apply subseq_nil_l|]. apply subseq_take. exact Hsub.
+      * exists (b' ++ rem). split.
+        { rewrite app_assoc, app_assoc. rewrite <- (app_assoc (deque_fronts [] p)). rewrite <- Hseg. reflexivity. }
+        exists bl'. split; [reflexivity|].
+        rewrite rev_app_distr. rewrite <- (app_nil_l bl').
+        apply subseq_app; [apply subseq_nil_l|exact Hsub].
+    + cbn [fst snd] in *. exists b'. split; [exact Hseg|]. exists bl'. split; [reflexivity|exact Hsub].
+Qed.
+
+Definition key_lt (x y : N * str) : Prop := fst x < fst y.
+
+(* when the entries are in key order, next() yields ascending keys and the back operations
+   yield descending keys *)
+Theorem deque_order rem plan :
+  StronglySorted key_lt rem ->
+  exists fl bl,
+    front_items rem plan = map it_of fl /\ StronglySorted key_lt fl /\
+    back_items rem plan = map it_of bl /\ StronglySorted (fun x y => key_lt y x) bl.
+Proof.
+  intros Hs. destruct (deque_segment rem plan) as (backs & Hseg & bl & Hbi & Hsub).
+  exists (deque_fronts rem plan), bl. split; [apply front_items_fronts|].
+  rewrite Hseg in Hs. split; [eapply sorted_app_l; eauto|]. split; [exact Hbi|].
+  apply sorted_app_r, sorted_app_r in Hs.
+  eapply subseq_sorted; [exact Hsub|]. now apply sorted_rev.
+Qed.
+
+Lemma enumerate_sorted cs : StronglySorted key_lt (enumerate cs).
+Proof.
+  unfold enumerate. generalize 0%nat as b.
+  induction cs as [|c cs IH]; intros b; simpl; constructor; auto.
+  rewrite Forall_forall. intros [j s] Hin. apply In_nth_error in Hin. destruct Hin as (i & Hi).
+  apply enum_nth_gen in Hi. destruct Hi as (-> & _). unfold key_lt; simpl. lia.
+Qed.
+
+(* ====================================================================================== *)
+(* B. equality of list-shaped containers                                                   *)
+(* ====================================================================================== *)
+
+Lemma list_str_eqb_eq c1 c2 : list_str_eqb c1 c2 = true <-> c1 = c2.
+Proof.
+  revert c2; induction c1 as [|x c1 IH]; intros [|y c2]; cbn [list_str_eqb];
+    split; intros H; try discriminate; auto.
+  - apply andb_true_iff in H as (H1 & H2). apply str_eqb_eq in H1. apply IH in H2.
+    subst. reflexivity.
+  - inversion H; subst. rewrite str_eqb_refl. simpl. apply IH. reflexivity.
+Qed.
+
+Lemma list_str_eqb_refl c : list_str_eqb c c = true.
+Proof. now apply list_str_eqb_eq. Qed.
+
+Lemma list_str_eqb_sym c1 c2 : list_str_eqb c1 c2 = list_str_eqb c2 c1.
+Proof.
+  destruct (list_str_eqb c1 c2) eqn:E1, (list_str_eqb c2 c1) eqn:E2; auto.
+  - apply list_str_eqb_eq in E1. subst. rewrite list_str_eqb_refl in E2. discriminate.
+  - apply list_str_eqb_eq in E2. subst. rewrite list_str_eqb_refl in E1. discriminate.
+Qed.
+
+Lemma list_eq_nth_error {A} (c1 c2 : list A) :
+  c1 = c2 <->
+  length c1 = length c2 /\ forall k, (k < length c1)%nat -> nth_error c1 k = nth_error c2 k.
+Proof.
+  split; [intros ->; auto|].
+  revert c2; induction c1 as [|x c1 IH]; intros [|y c2] (Hl & Hn); simpl in Hl;
+    try discriminate; auto.
+  f_equal.
+  - assert (H0 : Some x = Some y) by (apply (Hn 0%nat); simpl; lia). congruence.
+  - apply IH. split; [lia|]. intros k Hk. apply (Hn (S k)). simpl. lia.
+Qed.
+
+Lemma list_eq_nth_error_all {A} (c1 c2 : list A) :
+  c1 = c2 <-> length c1 = length c2 /\ forall k, nth_error c1 k = nth_error c2 k.
+Proof.
+  split; [intros ->; auto|]. intros (Hl & Hn). apply list_eq_nth_error. auto.
+Qed.
+
+Section Eq.
+  Variable keycap : N.
+  Notation eq_obj := (eq_obj keycap).
+
+  (* The right-hand side mentions nothing but the two content lists: PartialEq does not see
+     the hasher, the lookup table, the memory limits, the block layout of the arena, or
+     whether a string is an RStatic or an RArena reference; and it does not see which of
+     Rodeo / RodeoReader / RodeoResolver either side is. *)
+  Theorem eq_obj_list x y s1 a1 s2 a2 cs1 cs2 :
+    obj_strs x = Some (s1, a1) -> obj_strs y = Some (s2, a2) ->
+    contents s1 a1 = Some cs1 -> contents s2 a2 = Some cs2 ->
+    eq_obj x y = Some (list_str_eqb cs1 cs2).
+  Proof.
+    intros Hx Hy H1 H2.
+    destruct x; simpl in Hx; try discriminate; destruct y; simpl in Hy; try discriminate;
+      inversion Hx; subst s1 a1; inversion Hy; subst s2 a2;
+      cbn [Rodeo.eq_obj obj_strs]; rewrite H1, H2; reflexivity.
+  Qed.
+
+  Corollary eq_obj_list_true x y s1 a1 s2 a2 cs1 cs2 :
+    obj_strs x = Some (s1, a1) -> obj_strs y = Some (s2, a2) ->
+    contents s1 a1 = Some cs1 -> contents s2 a2 = Some cs2 ->
+    (eq_obj x y = Some true <-> cs1 = cs2).
+  Proof.
+    intros Hx Hy H1 H2. rewrite (eq_obj_list x y _ _ _ _ _ _ Hx Hy H1 H2).
+    rewrite <- list_str_eqb_eq. split; [now intros [= ->]|now intros ->].
+  Qed.
+
+  (* C18: equal iff same length and the same string under every key *)
+  Theorem eq_obj_list_iff x y s1 a1 s2 a2 cs1 cs2 :
+    obj_strs x = Some (s1, a1) -> obj_strs y = Some (s2, a2) ->
+    contents s1 a1 = Some cs1 -> contents s2 a2 = Some cs2 ->
+    (eq_obj x y = Some true <->
+     (length cs1 = length cs2 /\ forall k, nth_error cs1 k = nth_error cs2 k)).
+  Proof.
+    intros Hx Hy H1 H2. rewrite (eq_obj_list_true x y _ _ _ _ _ _ Hx Hy H1 H2).
+    apply list_eq_nth_error_all.
+  Qed.
+
+  Theorem eq_obj_list_sym x y s1 a1 s2 a2 cs1 cs2 :
+    obj_strs x = Some (s1, a1) -> obj_strs y = Some (s2, a2) ->
+    contents s1 a1 = Some cs1 -> contents s2 a2 = Some cs2 ->
+    eq_obj x y = eq_obj y x.
+  Proof.
+    intros Hx Hy H1 H2.
+    rewrite (eq_obj_list x y _ _ _ _ _ _ Hx Hy H1 H2), (eq_obj_list y x _ _ _ _ _ _ Hy Hx H2 H1).
+    now rewrite list_str_eqb_sym.
+  Qed.
+
+  Theorem eq_obj_list_refl x s a cs :
+    obj_strs x = Some (s, a) -> contents s a = Some cs -> eq_obj x x = Some true.
+  Proof.
+    intros Hx H1. rewrite (eq_obj_list x x _ _ _ _ _ _ Hx Hx H1 H1). now rewrite list_str_eqb_refl.
+  Qed.
+
+  Theorem eq_obj_list_trans x y z s1 a1 s2 a2 s3 a3 cs1 cs2 cs3 :
+    obj_strs x = Some (s1, a1) -> obj_strs y = Some (s2, a2) -> obj_strs z = Some (s3, a3) ->
+    contents s1 a1 = Some cs1 -> contents s2 a2 = Some cs2 -> contents s3 a3 = Some cs3 ->
+    eq_obj x y = Some true -> eq_obj y z = Some true -> eq_obj x z = Some true.
+  Proof.
+    intros Hx Hy Hz H1 H2 H3 Hxy Hyz.
+    apply (eq_obj_list_true x y _ _ _ _ _ _ Hx Hy H1 H2) in Hxy.
+    apply (eq_obj_list_true y z _ _ _ _ _ _ Hy Hz H2 H3) in Hyz.
+    apply (eq_obj_list_true x z _ _ _ _ _ _ Hx Hz H1 H3). congruence.
+  Qed.
+End Eq.
+
+(* ====================================================================================== *)
+(* C. FromIterator / Extend                                                                *)
+(* ====================================================================================== *)
+
+Definition str_in (s : str) (cs : list str) : bool := existsb (str_eqb s) cs.
+
+(* the abstract effect of get_or_intern over a list *)
+Fixpoint extend_abs (cs l : list str) : list str :=
+  match l with
+  | [] => cs
+  | s :: t => extend_abs (if str_in s cs then cs else cs ++ [s]) t
+  end.
+
+(* remove repetitions, keeping the first occurrence of every string *)
+Fixpoint nodup_keep_first (l : list str) : list str :=
+  match l with
+  | [] => []
+  | s :: t => s :: filter (fun x => negb (str_eqb x s)) (nodup_keep_first t)
+  end.
+
+Lemma str_in_iff s cs : str_in s cs = true <-> In s cs.
+Proof.
+  unfold str_in. rewrite existsb_exists. split.
+  - intros (x & Hin & He). apply str_eqb_eq in He. now subst.
+  - intros Hin. exists s. split; auto. apply str_eqb_refl.
+Qed.
+
+Lemma str_in_false s cs : str_in s cs = false <-> ~ In s cs.
+Proof.
+  rewrite <- str_in_iff. destruct (str_in s cs); split; intros H; congruence.
+Qed.
+
+Lemma extend_abs_in l : forall cs s, In s (extend_abs cs l) <-> In s cs \/ In s l.
+Proof.
+  induction l as [|a t IH]; intros cs s; simpl; [tauto|].
+  rewrite IH. destruct (str_in a cs) eqn:E.
+  - apply str_in_iff in E. split; [tauto|]. intros [H|[H|H]]; auto. subst; auto.
+  - rewrite in_app_iff. simpl. tauto.
+Qed.
+
+Lemma filter_comm {A} (p q : A -> bool) l : filter p (filter q l) = filter q (filter p l).
+Proof.
+  induction l as [|x l IH]; simpl; auto.
+  destruct (q x) eqn:Q, (p x) eqn:P; simpl; rewrite ?Q, ?P, IH; reflexivity.
+Qed.
+
+Lemma filter_andb {A} (p q : A -> bool) l :
+  filter q (filter p l) = filter (fun x => p x && q x) l.
+Proof.
+  induction l as [|x l IH]; simpl; auto.
+  destruct (p x) eqn:P; simpl; [destruct (q x); rewrite IH; reflexivity|exact IH].
+Qed.
+
+Lemma filter_drop_neq (p : str -> bool) x l :
+  p x = false -> filter p (filter (fun y => negb (str_eqb y x)) l) = filter p l.
+Proof.
+  intros Px. induction l as [|y l IH]; simpl; auto.
+  destruct (str_eqb y x) eqn:E; simpl.
+  - apply str_eqb_eq in E. subst y. rewrite Px. exact IH.
+  - destruct (p y); rewrite IH; reflexivity.
+Qed.
+
+Lemma nodup_keep_first_filter (p : str -> bool) l :
+  nodup_keep_first (filter p l) = filter p (nodup_keep_first l).
+Proof.
+  induction l as [|x t IH]; simpl; auto.
+  destruct (p x) eqn:Px; simpl.
+  - rewrite IH. f_equal. apply filter_comm.
+  - rewrite IH. symmetry. now apply filter_drop_neq.
+Qed.
+
+(* what Extend adds: the strings of [l] not already present, first occurrences, in order *)
+Theorem extend_abs_added l : forall cs,
+  extend_abs cs l = cs ++ nodup_keep_first (filter (fun s => negb (str_in s cs)) l).
+Proof.
+  induction l as [|s t IH]; intros cs; simpl; [now rewrite app_nil_r|].
+  destruct (str_in s cs) eqn:E; simpl.
+  - apply IH.
+  - rewrite IH, <- app_assoc. simpl. f_equal. f_equal.
+    rewrite <- nodup_keep_first_filter. f_equal. rewrite filter_andb.
+    apply filter_ext. intros x. unfold str_in. rewrite existsb_app. simpl.
+    rewrite orb_false_r, negb_orb. reflexivity.
+Qed.
+
+Lemma nodup_keep_first_in l s : In s (nodup_keep_first l) <-> In s l.
+Proof.
+  induction l as [|x t IH]; simpl; [tauto|].
+  rewrite filter_In, IH. split.
+  - intros [H|(H & _)]; auto.
+  - intros [H|H]; auto. destruct (str_eqb s x) eqn:E.
+    + apply str_eqb_eq in E. auto.
+    + right. auto.
+Qed.
+
+Lemma nodup_keep_first_nodup l : NoDup (nodup_keep_first l).
+Proof.
+  induction l as [|x t IH]; simpl; constructor.
+  - rewrite filter_In. intros (_ & H). rewrite str_eqb_refl in H. discriminate.
+  - now apply NoDup_filter.
+Qed.
+
+Lemma filter_true {A} (l : list A) : filter (fun _ => true) l = l.
+Proof. induction l as [|x l IH]; simpl; congruence. Qed.
+
+Section Extend.
+  Variable hash : str -> N.
+  Variable cand : N -> N -> bool.
+  Variable growf : N -> bool.
+  Variable keycap : N.
+  Hypothesis cand_refl : forall h, cand h h = true.
+
+  Notation RodeoInv := (RodeoInv hash keycap).
+  Notation intern := (intern hash cand growf keycap).
+  Notation r_extend := (r_extend hash cand growf keycap).
+
+  (* Extend processes a prefix of the list exactly like the abstract interner and stops at
+     the first string that cannot be interned (a new string, and keys or memory ran out) *)
+  Theorem r_extend_prefix l : forall r cs r' ok,
+    RodeoInv r cs -> r_extend r l = (r', ok) ->
+    exists l1 l2,
+      l = l1 ++ l2 /\ RodeoInv r' (extend_abs cs l1) /\
+      (ok = true -> l2 = []) /\
+      (ok = false -> exists s t, l2 = s :: t /\ ~ In s (extend_abs cs l1)).
+  Proof.
+    induction l as [|s t IH]; intros r cs r' ok Hinv He; cbn [Rodeo.r_extend] in He.
+    - inversion He; subst. exists [], []. split; [reflexivity|]. split; [exact Hinv|].
+      split; [reflexivity|discriminate].
+    - destruct (intern r s) as [r1 [k|e]] eqn:Ei.
+      + pose proof (intern_spec hash cand growf keycap cand_refl _ _ _ _ _ Hinv Ei) as Ho.
+        destruct Ho as [k0 H1 H2 H3 | H1 H2 H3 H4 | H1 H2 H3 H4 H5 H6 | ref H1 H2 H3 H4 H5 H6];
+          try discriminate.
+        * subst r1. destruct (IH _ _ _ _ Hinv He) as (l1 & l2 & Hl & Hi & Ht & Hf).
+          assert (Hin : str_in s cs = true).
+          { apply str_in_iff. apply index_of_some in H1. destruct H1 as (Hn & _).
+            eapply nth_error_In; eauto. }
+          exists (s :: l1), l2. cbn [extend_abs]. rewrite Hin.
+          split; [simpl; now rewrite Hl|]. split; [exact Hi|]. split; assumption.
+        * destruct (IH _ _ _ _ H4 He) as (l1 & l2 & Hl & Hi & Ht & Hf).
+          assert (Hin : str_in s cs = false).
+          { apply str_in_false. now apply index_of_none. }
+          exists (s :: l1), l2. cbn [extend_abs]. rewrite Hin.
+          split; [simpl; now rewrite Hl|]. split; [exact Hi|]. split; assumption.
+      + inversion He; subst r' ok. clear He.
+        pose proof (intern_spec hash cand growf keycap cand_refl _ _ _ _ _ Hinv Ei) as Ho.
+        assert (Hr : r1 = r /\ index_of s cs = None).
+        { destruct Ho as [k0 H1 H2 H3 | H1 H2 H3 H4 | H1 H2 H3 H4 H5 H6 | ref H1 H2 H3 H4 H5 H6];
+            try discriminate; auto. }
+        destruct Hr as (-> & Hidx).
+        exists [], (s :: t). split; [reflexivity|]. split; [exact Hinv|].
+        split; [discriminate|]. intros _. exists s, t. split; [reflexivity|].
+        simpl. now apply index_of_none.
+  Qed.
+
+  (* C17 *)
+  Theorem r_extend_spec r cs l r' ok :
+    RodeoInv r cs -> r_extend r l = (r', ok) ->
+    exists cs',
+      RodeoInv r' cs' /\ (exists added, cs' = cs ++ added) /\ NoDup cs' /\
+      (ok = true ->
+         cs' = cs ++ nodup_keep_first (filter (fun s => negb (existsb (str_eqb s) cs)) l) /\
+         forall s, In s cs' <-> In s cs \/ In s l).
+  Proof.
+    intros Hinv He.
+    destruct (r_extend_prefix l _ _ _ _ Hinv He) as (l1 & l2 & Hl & Hi & Ht & _).
+    exists (extend_abs cs l1). split; [exact Hi|]. split.
+    - eexists. apply extend_abs_added.
+    - split.
+      + destruct Hi as (_ & (_ & _ & _ & Hnd) & _). exact Hnd.
+      + intros Hok. specialize (Ht Hok). subst l2. rewrite app_nil_r in Hl. subst l1.
+        split; [apply (extend_abs_added l cs)|]. intros s. apply extend_abs_in.
+  Qed.
+
+  (* FromIterator: the distinct strings of the list, in order of first occurrence *)
+  Corollary r_from_iter_spec l r' :
+    r_extend (rodeo_new default_bytes usize_max) l = (r', true) ->
+    RodeoInv r' (nodup_keep_first l).
+  Proof.
+    intros He.
+    assert (Hinv : RodeoInv (rodeo_new default_bytes usize_max) []).
+    { apply rodeo_new_inv. unfold default_bytes. lia. }
+    destruct (r_extend_prefix l _ _ _ _ Hinv He) as (l1 & l2 & Hl & Hi & Ht & _).
+    specialize (Ht eq_refl). subst l2. rewrite app_nil_r in Hl. subst l1.
+    rewrite extend_abs_added in Hi. simpl in Hi. rewrite filter_true in Hi. exact Hi.
+  Qed.
+End Extend.
+
+Print Assumptions run_iter_refines_deque.
+Print Assumptions run_iter_whole.
+Print Assumptions run_iter_no_panic.
+Print Assumptions step_iter_list.
+Print Assumptions step_strings_list.
+Print Assumptions deque_iter_all_next.
+Print Assumptions deque_iter_all_next_back.
+Print Assumptions deque_accounting.
+Print Assumptions yielded_incl.
+Print Assumptions yielded_nodup.
+Print Assumptions deque_len_exact.
+Print Assumptions deque_segment.
+Print Assumptions deque_order.
+Print Assumptions eq_obj_list.
+Print Assumptions eq_obj_list_iff.
+Print Assumptions eq_obj_list_sym.
+Print Assumptions r_extend_prefix.
+Print Assumptions r_extend_spec.
+Print Assumptions r_from_iter_spec.
